@@ -28,6 +28,8 @@ pub fn run(args: &Args) {
     let healthy_ms = args.num("healthy-ms", 30000);
     let max_chaos = args.num("max-chaos", 60);
     let max_appends = args.num("max-appends", 4);
+    // client appends DURING the fault-ridden prefix (at whoever is leader): the logs differ when the network heals
+    let chaos_appends = args.num("chaos-appends", 0);
     let work = args.str("work", "/verif/harness/target/scratch/vraft");
     let out = args.str("out", &format!("{work}/healthy_trace.ndjson"));
     std::fs::create_dir_all(&work).unwrap();
@@ -41,10 +43,15 @@ pub fn run(args: &Args) {
         let mut sim = Sim::new(cfg);
         trace.emit(sim.reset_event());
         // ---- chaos prefix: elections under loss / duplication / arbitrary timers (every second run starts cold)
-        let chaos = if run % 2 == 0 { 0 } else { rng.range(1, max_chaos) };
+        let chaos = if run % 2 == 0 && chaos_appends == 0 { 0 } else { rng.range(1, max_chaos) };
+        let mut early = 0u64;
         for _ in 0..chaos {
             let x = rng.below(100);
-            let ev = if !sim.flight.is_empty() && x < 60 {
+            let leaders: Vec<usize> = (0..n).filter(|i| sim.is_leader(*i)).collect();
+            let ev = if early < chaos_appends && !leaders.is_empty() && rng.chance(1, 8) {
+                early += 1;
+                sim.append(*rng.pick(&leaders), 1000 + early)
+            } else if !sim.flight.is_empty() && x < 60 {
                 let (id, is_req) = { let m = rng.pick(&sim.flight); (m.0, matches!(m.1, Msg::Req(_))) };
                 if is_req { sim.deliver_req(id) } else { sim.deliver_resp(id) }
             } else if !sim.flight.is_empty() && x < 72 {
